@@ -173,7 +173,7 @@ def run(tier, seed):
     _default_path(acc)
     # a session left half-open while many others run must still refuse its own reflected message (long history, one process)
     from .c16 import _soak_task
-    d = core.pmerge(_soak_task, [("T23", 3000)] if quick else [("Params1024", 3500), ("T23", 50000), ("T509", 20000)])
+    d = core.pmerge(_soak_task, [("Params1024", 3000), ("T23", 3000)] if quick else [("Params1024", 3500), ("T23", 50000), ("T509", 20000)])
     for k, v in d.viol.items():
         if "half-open" in k:
             for r in v["records"]:
